@@ -33,7 +33,7 @@ def sig_resp(rec):
                                          case.get("min_length"), case.get("filter"), case.get("path"))
 
 
-NEGOTIATE_COMPONENTS = ["mismatch:C05+C20", "mismatch:C13", "monitor:C05+C20", "monitor:C13"]
+NEGOTIATE_COMPONENTS = ["mismatch:C05+C20", "mismatch:C13", "monitor:C05+C20+C09", "monitor:C13"]
 
 RESP_TRUST = [
     "model coq/Model/Resp.v is hand-written from cache/http_response.go (NewHTTPResponse, shouldCompressed, GetRawBody, Compress, getBodyByAcceptEncoding, Fill) and Cacheable's pre-compress; tied by the negotiate family",
@@ -42,6 +42,8 @@ RESP_TRUST = [
 ]
 
 def sig_c09(rec):
+    if rec.get("family") == "negotiate":
+        return sig_resp(rec)
     case = rec.get("case") or {}
     if case.get("kind"):
         return "codec:" + str(case.get("kind"))
@@ -65,7 +67,7 @@ def flight_family(quick, thorough, search):
 WAKEUP_FAMILY = {"quick": 12, "thorough": 12, "search": 12, "runner": "test", "test": "TestWakeup", "timeout_s": 60,
                  "env": {"GODEBUG": "asyncpreemptoff=1", "GOMAXPROCS": "1"},
                  "components": ["mismatch", "monitor:C01+C20", "monitor:C04+C20", "monitor:C02+C20"]}
-CHOREO_FAMILY = {"quick": 21, "thorough": 90, "search": 45, "runner": "test", "test": "TestChoreo", "timeout_s": 60,
+CHOREO_FAMILY = {"quick": 28, "thorough": 120, "search": 60, "runner": "test", "test": "TestChoreo", "timeout_s": 60,
                  "env": {"GODEBUG": "asyncpreemptoff=1", "GOMAXPROCS": "1"},
                  "components": ["mismatch", "monitor:C01+C20", "monitor:C02+C20", "monitor:C18+C20"]}
 
@@ -221,7 +223,9 @@ PROPS = {
                     "step-level theorems: marks, immediate pass without queueing, own answer, lapse; three simultaneous passes exhibited."),
     "C08": sys_prop(["store Set/Get/Delete are atomic per key and Get returns the last successful Set or not-found (badger transactions: trusted); process start-up and badger recovery are runtime behaviour outside the model",
                      "restarts are exercised in-process at quiescent points (fresh dispatcher on the same store)"],
-                    "provenance invariant with Crash anywhere in the label sequence; restored hit = original response, original creation time, within original expiry.", with_stress=True),
+                    "provenance invariant with Crash anywhere in the label sequence; restored hit = original response, original creation time, within original expiry.", with_stress=True,
+                    # many near-identical keys on a small store-backed dispatcher: what is rebuilt from the store is the key's own record
+                    extra={"keys": {"quick": 30, "thorough": 300, "search": 60}}),
     "C10": sys_prop(["store calls return (possibly with an error): a call that never returns is a hang of the store client, not modelled"],
                     "C01/C02 theorems hold for all store choices; no immortal/empty hit; bad record = miss; memory hits need no store."),
     "C18": sys_prop(["a purge issued while a fetch is in flight does not cancel it: its result may be stored afterwards (stated caveat)"],
@@ -229,14 +233,20 @@ PROPS = {
     "C02": sys_prop(["every upstream exchange eventually ends (the proxy timeout turns silence into a 504): upstream steps are always-enabled environment steps"],
                     "no_deadlock + strictly decreasing well-founded measure + final_clean over all label sequences.", with_wakeup=True, with_choreo=True),
     "C01": {
-        "families": {"flight": flight_family(120, 1500, 300), "wakeup": WAKEUP_FAMILY, "choreo": CHOREO_FAMILY},
+        "families": {"flight": flight_family(120, 1500, 300), "wakeup": WAKEUP_FAMILY, "choreo": CHOREO_FAMILY,
+                     # requests on other keys: the shard a key maps to must not depend on concurrent traffic
+                     "keys": {"quick": 30, "thorough": 300, "search": 60},
+                     "racestress": RACESTRESS_FAMILY},
         "signature": sig_flight,
         "trusted_base": SYS_TRUST,
         "assumptions": ["the key's entry is not evicted/purged during the fetch (the property's own proviso) for the per-key reading"],
         "explanation": "single_flight and friends over all label sequences of the per-key small-step model.",
     },
     "C09": {
-        "families": {"codec": {"quick": 60, "thorough": 1500, "search": 300}},
+        "families": {"codec": {"quick": 60, "thorough": 1500, "search": 300},
+                     # "an entry that behaves identically for every client": entries restored from their record are served
+                     # under every Accept-Encoding (a third of the negotiate cases go through Bytes/FromBytes)
+                     "negotiate": {"quick": 150, "thorough": 4000, "search": 1500, "components": NEGOTIATE_COMPONENTS}},
         "signature": sig_c09,
         "trusted_base": [
             "model coq/Model/Codec.v is hand-written from cache/cache.go, HTTPResponse.Bytes/FromBytes and httpCache.Bytes/FromBytes (bytes.Buffer.Next = min(n, remaining); field-by-field mutation); tied by the codec family (exact record bytes; decode result and error flag on full records, every prefix, mutants)",
